@@ -5,7 +5,7 @@
 # (For use while background checks are building from /repo.)  Everything lives in /tmp/seedtry.
 set -u
 patch="$1"; tier="$2"; shift 2
-S=/tmp/seedtry
+S=${SEEDTRY_DIR:-/tmp/seedtry}
 mkdir -p $S
 if [ -d $S/repo ]; then git -C /repo worktree remove --force $S/repo 2>/dev/null; rm -rf $S/repo; fi
 git -C /repo worktree prune
